@@ -581,3 +581,43 @@ func fmtScalar(t *sym.Term, kind int, v uint64) string {
 	}
 	return fmt.Sprintf("%d", v)
 }
+
+// cloneAgg deep-copies struct and array values (Go value semantics); everything else is shared.
+func cloneAgg(v value) value {
+	switch v := v.(type) {
+	case structure:
+		c := make(structure, len(v))
+		for i := range v {
+			c[i] = cloneAgg(v[i])
+		}
+		return c
+	case array:
+		c := make(array, len(v))
+		for i := range v {
+			c[i] = cloneAgg(v[i])
+		}
+		return c
+	}
+	return v
+}
+
+// cloneCells returns the cells to be written by copy/append: aggregates are copied so that
+// destination and source elements do not share storage.
+func cloneCells(src []value) []value {
+	agg := false
+	for _, v := range src {
+		switch v.(type) {
+		case structure, array:
+			agg = true
+		}
+		break
+	}
+	if !agg {
+		return src
+	}
+	out := make([]value, len(src))
+	for i, v := range src {
+		out[i] = cloneAgg(v)
+	}
+	return out
+}
